@@ -4,7 +4,7 @@ from .. import gridfun, misc_guards, rules, shapesets as S, sparse, spaces
 from ..alg import V
 
 LEVEL = "other"
-TECHNIQUE = "symbolic extraction of the sparse element kernels, basis evaluators, integration and projection kernels against integrand specs; provenance typing of the sparse/projection call sites; repository-wide index-domain and method-subscript lints; finite-domain abstract execution of guards and dtype switches; index/extent agreement analysis of the Numba kernels"
+TECHNIQUE = "symbolic extraction of the sparse element kernels, basis evaluators, integration and projection kernels against integrand specs; provenance typing of the sparse/projection call sites; repository-wide index-domain and method-subscript lints; finite-domain abstract execution of guards and dtype switches; index/extent agreement analysis of the Numba kernels; non-commutative term evaluation of l2_norm"
 LEVEL_TEXT = (
     "Decides that the four sparse element kernels accumulate exactly sum_q <test basis, trial basis> w_q J into the "
     "slot the assembler decodes, that rows/columns/multipliers/dof transformations are applied with the right roles "
